@@ -45,6 +45,7 @@ class Routing:
         self.empty_since = {d: 0 for d in self.single}
         self.clean = {d: True for d in self.single}      # nothing disturbed its idle stamp since it emptied
         self.was_empty = {d: True for d in self.single}
+        self.was_oper = {d: True for d in self.single}
         self.down = {d: False for d in self.single}
 
     # -- route walk -----------------------------------------------------------------------
@@ -221,6 +222,12 @@ class Routing:
             # input does not: a blocked device that holds nothing is still idle, and stays 'idle since it emptied'.
             if d in rewired or not oper:
                 self.clean[d] = False
+            elif not self.was_oper.get(d, True) and empty:
+                # back in operation and empty: a machine that was down was not idle, it is idle since it came back
+                self.empty_since[d] = now
+                self.clean[d] = True
+                ctx.count('idle_clocks_restarted_at_restoration')
+            self.was_oper[d] = oper
             self.was_empty[d] = empty
         self.blocked = blocked_now
 
@@ -247,7 +254,32 @@ class Routing:
             if len(lst) > 1 and self.kind.get(sender) != 'buffer':
                 continue
             sdev = m.devs[sender]
-            direct = [m.id_of.get(id(d)) for d in sdev._downstream]
+            # the candidates: the sender's direct single-slot downstreams and those behind plain pass-through
+            # devices (controllers, accept-all gates), which rank by the longest-idle device behind them - choosing
+            # level by level picks the longest-idle free device overall
+            direct = []
+            through = False
+            unresolved = False
+
+            def collect(node, depth):
+                nonlocal through, unresolved
+                for d in node._downstream:
+                    c = m.id_of.get(id(d))
+                    k = self.kind.get(c)
+                    if c in self.single:
+                        if c in direct:
+                            unresolved = True
+                        direct.append(c)
+                    elif depth < 2 and c not in rewired and (
+                            k == 'flow' or (k == 'gate' and self.pred.get(c, {}).get('t') == 'always')):
+                        if self.blocked.get(c) or getattr(d, 'block_input', False):
+                            continue            # closed: nothing behind it can take the part
+                        through = True
+                        collect(d, depth + 1)
+                    else:
+                        unresolved = True       # a buffer / batcher / group path / deciding gate competes
+                        direct.append(c)
+            collect(sdev, 0)
             if any(c in unlocated for c in direct):
                 ctx.count('idle_longest_not_judged')
                 continue
@@ -263,7 +295,7 @@ class Routing:
                 if recv not in direct:
                     break
                 cands = []
-                ambiguous = False
+                ambiguous = unresolved
                 for c in direct:
                     if c not in self.single:
                         ambiguous = True      # a pass-through / buffer / batcher competes: not the stated situation
@@ -293,6 +325,8 @@ class Routing:
                         ctx.count('idle_longest_judged')
                         if len(lst) > 1:
                             ctx.count('idle_longest_judged_in_multi_release')
+                        if through:
+                            ctx.count('idle_longest_judged_through_pass_through_devices')
                         if recv not in winners:
                             ctx.report('idle_longest', f'{sender} passed {part.name} to {recv} (idle since '
                                        f'{since[recv]!r}) at {now!r} although {winners} has been idle since {best!r}')
